@@ -1132,8 +1132,10 @@ func (m *Nitro) LoadFromDisk(dir string, concurr int, callb ItemCallback) (*Snap
 				for {
 					itm, err := r.ReadItem()
 					if err != nil {
+						// Keep serving the work channel: the producer blocks
+						// forever once every loader has returned.
 						errors[shard] = err
-						return
+						break loop
 					}
 
 					if itm == nil {
@@ -1225,7 +1227,7 @@ func (m *Nitro) LoadFromDisk(dir string, concurr int, callb ItemCallback) (*Snap
 						itm, err := r.ReadItem()
 						if err != nil {
 							errors[shard] = err
-							return
+							break loop
 						}
 
 						if itm == nil {
